@@ -160,6 +160,14 @@ pub fn run(ctx: &Ctx) -> i32 {
         st.count("boundary_code_point_sets_exhaustive");
         check_case(ctx, st, &bsets[i], s0);
     });
+    // code points at arithmetic distances from the encoding boundaries (position arithmetic slips)
+    {
+        let far = gen::far_neighbour_sets();
+        par_for(&ctx.run, far.len(), |i, st| {
+            st.count("far_neighbour_sets");
+            check_case(ctx, st, &far[i], s0);
+        });
+    }
     // contiguous code point runs (character class ranges a-c) incl. around '-', '^', ']' and '\\'
     let runs: Vec<(u32, u32)> = vec![(0x28, 0x30), (0x58, 0x62), (0x7a, 0x82), (0x2d, 0x2f), (0x5b, 0x5e), (0xfffd, 0x10002), (0x10fffd, 0x10ffff), (0x1b, 0x22)];
     par_for(&ctx.run, runs.len() * 8, |i, st| {
